@@ -19,11 +19,21 @@ RULE = ('one case = one registration history (add, add with an explicit name, ad
         'sampled. After the history the dispatcher is probed by real requests with every name of the name model, every name '
         'one edit away (dropped / added / replaced character, dropped or added dot segment) and every private / dunder / '
         'non-callable member name under every prefix in play; each probe function returns its own token, so "which target '
-        'does this name reach" is observed directly. The registry key set is compared as well. Distinct = distinct '
-        '(history, dispatcher kind).')
+        'does this name reach" is observed directly. The registry key set is compared as well. Two further dimensions are '
+        'sampled and crafted on top: (1) WHAT is registered - besides plain functions, callable objects (with or without a '
+        '__name__ of their own) whose truth value is false at registration time (__len__ -> 0, __bool__ -> False; a truthy '
+        'callable object as control) and view classes whose metaclass gives the CLASS a false truth value, through every '
+        'entry point (registry.add bare / decorator form / name=, add_methods, view bare / decorator form, dispatcher.add / '
+        'add_methods / view); (2) HOW the parts are spelled - explicit names, registry prefixes (alternative prefix triples) '
+        'and view prefixes that start or end with the separator or contain it doubled (".hidden", "trailing.", "a..b", '
+        'prefix "v."), at every nesting level: the reachable name is the verbatim dot-join of the given non-empty parts. '
+        'Distinct = distinct (history, dispatcher kind, prefix triple).')
 ASSUMPTIONS = [
     'add_methods(Method(...)) on a registry that has a prefix: a pre-built Method carries its full name already; not judged',
     'nested classes as view members are not generated (calling them returns a non-JSON value)',
+    'empty-string names and prefixes are not generated (whether "" is a part to be joined or "no part" is left open by the statement)',
+    'callable objects are hashable ones (an unhashable callable, e.g. an empty list subclass with __call__, registers but cannot be '
+    'called: the validator caches signatures by callable; reported, not generated)',
 ]
 SHARDS = {'quick': 4, 'thorough': 16}
 TIMEOUT = {'quick': 400, 'thorough': 2400}
@@ -40,10 +50,25 @@ FLOORS = {'*': {'op:add': 300, 'op:add_named': 200, 'op:add_methods_fn': 100, 'o
                 're-registration': 100, 'probe:registered-name': 2000, 'probe:near-miss': 5000, 'probe:private-member': 1000,
                 'dispatcher:sync': 300, 'dispatcher:async': 300, 'view:static-member': 100, 'view:inherited-member': 100,
                 'same-prefix-merge': 20, 'view:derived-view': 50, 'probe:underscore-name': 100, 'name-given-as-str-subclass-object': 100,
-                'view:constructor-raises-KeyError': 50, 'op:add_deco_multi': 100}}
+                'view:constructor-raises-KeyError': 50, 'op:add_deco_multi': 100,
+                'registered:falsy-callable-object': 400, 'registered:truthy-callable-object': 60, 'registered:falsy-view-class': 150,
+                'falsy-registration:registry.add': 120, 'falsy-registration:registry.add(name=)': 150, 'falsy-registration:add_methods': 60,
+                'falsy-registration:registry.view': 150, 'falsy-registration:dispatcher.add': 50, 'falsy-registration:dispatcher.view': 20,
+                'falsy-registration:dispatcher.add_methods': 20,
+                'separator-at-edge:explicit-name': 300, 'separator-at-edge:registry-prefix': 800, 'separator-at-edge:view-prefix': 120,
+                'separator-at-edge:carried-through-merge': 120, 'separator-at-edge:dispatcher.add': 60, 'prefix-triple:alternative': 400}}
 
 PREFIXES = [None, 'a', 'a.b']
-FN_NAMES = ['alpha', 'beta', 'alpha', '_gamma']          # fn 0 and fn 2 collide on purpose; an own name may start with '_'
+# fn 0 and fn 2 collide on purpose; an own name may start with '_'. 4.. are callable OBJECTS (see make_objs): 4 and 5 have a false
+# truth value (5 collides with fn 1 by name), 6 is a truthy callable object, 7 is falsy and has no __name__ (explicit names only)
+FN_NAMES = ['alpha', 'beta', 'alpha', '_gamma', 'sig', 'beta', 'obj', None]
+N_PLAIN = 4
+FALSY_FNS = (4, 5, 7)
+FALSY_VIEWS = (4, 5)
+# alternative prefix triples: the separator at the edge of a prefix or doubled inside it (a part is joined verbatim)
+PREFIX_SETS = [[None, 'a', 'a.b'], [None, 'a.', 'a..b'], ['.p', 'a', 'b.'], ['v.', None, '.a.b'], ['a', 'a.', '.a']]
+SEP_NAMES = ['.hidden', 'trailing.', 'a..b', '.x.', '..z', 'ns..', 'v.']
+SEP_VIEW_PREFIXES = ['v.', '.v', 'v..w', 'a.']
 EXPLICIT = ['alpha', 'x.y', 'a', '_x', 'ns._y']
 
 
@@ -98,6 +123,60 @@ def make_fn(token, name, is_async, wrapped=False):
         alias.__name__ = alias.__qualname__ = name
         return alias
     return fn
+
+
+class EmptySignal:
+    """a callable hook list (event signal, pipeline) without receivers: len() is 0, so its truth value is False"""
+
+    def __init__(self, token, name=None, receivers=0):
+        self.token = token
+        self.receivers = receivers
+        if name is not None:
+            self.__name__ = self.__qualname__ = name
+
+    def __len__(self):
+        return self.receivers
+
+    def __call__(self):
+        return self.token
+
+
+class OffSwitch:
+    """a callable feature toggle that is switched off: __bool__ says False"""
+
+    def __init__(self, token, name):
+        self.token = token
+        self.__name__ = self.__qualname__ = name
+
+    def __bool__(self):
+        return False
+
+    def __call__(self):
+        return self.token
+
+
+# REPORTED: an UNHASHABLE callable (class Pipe(list) with __call__, or any class defining __eq__ without __hash__) registers under
+# its name but every call answers -32603: validators.base.BaseValidator.signature is an lru_cache keyed by the callable. Left out.
+def make_objs():
+    return [EmptySignal('fn4', 'sig'), OffSwitch('fn5', 'beta'), EmptySignal('fn6', 'obj', receivers=1), EmptySignal('fn7')]
+
+
+class CountedMeta(type):
+    """views that keep track of their live instances: len(View) is their number - 0 when the view is registered"""
+
+    def __len__(cls):
+        return len(cls.__dict__.get('instances', ()))
+
+
+class DisabledMeta(type):
+    """classes that report False while a feature flag is off"""
+
+    def __bool__(cls):
+        return False
+
+
+def sep_odd(name):
+    return isinstance(name, str) and (name.startswith('.') or name.endswith('.') or '..' in name)
 
 
 def make_views(is_async):
@@ -193,7 +272,28 @@ def make_views(is_async):
 
         def km(self):
             return 'V3.km'
-    return [V0, V1, V2, V3]
+
+    class V4(pjrpc.server.ViewMixin, metaclass=CountedMeta):
+        instances = ()
+
+        def status(self):
+            return 'V4.status'
+
+        @staticmethod
+        def count():
+            return 'V4.count'
+
+        def _secret(self):
+            return 'V4._secret'
+
+    class V5(pjrpc.server.ViewMixin, metaclass=DisabledMeta):
+        # collides with the other views on `pm`: a re-registration through a class that is false
+        def pm(self):
+            return 'V5.pm'
+
+        def toggle(self):
+            return 'V5.toggle'
+    return [V0, V1, V2, V3, V4, V5]
 
 
 VIEW_PUBLIC = [{'pm': 'V0.pm', 'alpha': 'V0.alpha', 'st': 'V0.st', 'cm': 'V0.cm', 'inherited': 'view:inherited', 'mixed': 'mix0:mixed',
@@ -201,7 +301,11 @@ VIEW_PUBLIC = [{'pm': 'V0.pm', 'alpha': 'V0.alpha', 'st': 'V0.st', 'cm': 'V0.cm'
                {'pm': 'V1.pm', 'helper': 'mix1:helper', 'shelper': 'mix1:shelper', 'context': 'V1.context', 'method': 'V1.method'},
                {'pm': 'V2.pm', 'helper': 'V2.helper', 'shelper': 'mix1:shelper', 'helper_data': 'V2.helper_data', 'context': 'V2.context',
                 'method': 'V2.method'},
-               {'km': 'registered-but-fails:-32603'}]
+               {'km': 'registered-but-fails:-32603'},
+               {'status': 'V4.status', 'count': 'V4.count'},
+               {'pm': 'V5.pm', 'toggle': 'V5.toggle'}]
+FALSY_TOKENS = {f'fn{i}' for i in FALSY_FNS} | {t for v in FALSY_VIEWS for t in VIEW_PUBLIC[v].values()}
+VIEW_PRIVATE_FALSY = ['_secret', 'instances']         # members of the views whose class is false
 VIEW_PRIVATE = ['_priv', '__dd__', 'data', 'names', '_hidden', '_mixpriv', 'helper_data', '__init__', '__methods__', '__class__', '__dict__', '__doc__']
 
 
@@ -209,13 +313,17 @@ def join(*parts):
     return '.'.join(p for p in parts if p)
 
 
-def run_history(ctx, ops, is_async):
-    cls = (json.dumps(ops), is_async)
+def run_history(ctx, ops, is_async, prefixes=None):
+    PREFIXES = prefixes if prefixes is not None else PREFIX_SETS[0]
+    cls = (json.dumps(ops), is_async) if prefixes is None else (json.dumps(ops), is_async, json.dumps(prefixes))
     dk = 'async' if is_async else 'sync'
     ctx.hit('dispatcher:' + dk)
-    fns = [make_fn(f'fn{i}', FN_NAMES[i], is_async and i != 1, wrapped=(i in (1, 3))) for i in range(len(FN_NAMES))]
+    if prefixes is not None and prefixes != PREFIX_SETS[0]:
+        ctx.hit('prefix-triple:alternative')
+    fns = [make_fn(f'fn{i}', FN_NAMES[i], is_async and i != 1, wrapped=(i in (1, 3))) for i in range(N_PLAIN)] + make_objs()
     views = make_views(is_async)
     regs = [pjrpc.server.MethodRegistry(prefix=p) for p in PREFIXES]
+    carries_sep = [False, False, False]     # the registry holds a name with the separator at the edge of one of its parts
     disp = (pjrpc.server.AsyncDispatcher if is_async else pjrpc.server.Dispatcher)()
     model = [dict() for _ in PREFIXES]     # name -> token
     dmodel = {}
@@ -231,7 +339,26 @@ def run_history(ctx, ops, is_async):
         m.pop(name, None)
         m[name] = token
 
-    wit = dict(history=ops, dispatcher=dk)
+    def what(f, entry):
+        # reach counters of the "what is registered" dimension
+        if f in FALSY_FNS:
+            ctx.hit('registered:falsy-callable-object')
+            ctx.hit('falsy-registration:' + entry)
+        elif f >= N_PLAIN:
+            ctx.hit('registered:truthy-callable-object')
+
+    def spelled(r, nm=None, vp=None):
+        # reach counters of the "how the parts are spelled" dimension
+        if sep_odd(nm):
+            ctx.hit('separator-at-edge:explicit-name')
+        if sep_odd(vp):
+            ctx.hit('separator-at-edge:view-prefix')
+        if r is not None and sep_odd(PREFIXES[r]):
+            ctx.hit('separator-at-edge:registry-prefix')
+        if r is not None and (sep_odd(nm) or sep_odd(vp) or sep_odd(PREFIXES[r])):
+            carries_sep[r] = True
+
+    wit = dict(history=ops, dispatcher=dk, prefixes=PREFIXES)
     for step, op in enumerate(ops):
         name = op[0]
         ctx.hit('op:' + name)
@@ -243,6 +370,8 @@ def run_history(ctx, ops, is_async):
                 else:
                     regs[r].add(fns[f])              # the bare `@registry.add` form
                 put(model[r], join(PREFIXES[r], FN_NAMES[f]), f'fn{f}')
+                what(f, 'registry.add')
+                spelled(r)
             elif name == 'add_named':
                 _, r, f, nm = op
                 nm_obj, nm = name_of(nm)
@@ -253,6 +382,8 @@ def run_history(ctx, ops, is_async):
                 else:
                     regs[r].add(fns[f], nm_obj)
                 put(model[r], join(PREFIXES[r], nm), f'fn{f}')
+                what(f, 'registry.add(name=)')
+                spelled(r, nm=nm)
             elif name == 'add_deco_multi':
                 # ONE decorator object obtained from registry.add(...) applied to several functions
                 _, r, fs = op
@@ -260,10 +391,14 @@ def run_history(ctx, ops, is_async):
                 for f in fs:
                     deco(fns[f])
                     put(model[r], join(PREFIXES[r], FN_NAMES[f]), f'fn{f}')
+                    what(f, 'registry.add')
+                spelled(r)
             elif name == 'add_methods_fn':
                 _, r, f = op
                 regs[r].add_methods(fns[f])
                 put(model[r], join(PREFIXES[r], FN_NAMES[f]), f'fn{f}')
+                what(f, 'add_methods')
+                spelled(r)
             elif name == 'add_methods_method':
                 _, r, f, nm = op
                 regs[r].add_methods(pjrpc.server.Method(fns[f], nm))
@@ -280,6 +415,10 @@ def run_history(ctx, ops, is_async):
                 for m, token in VIEW_PUBLIC[v].items():
                     put(model[r], join(PREFIXES[r], vp, m), token)
                 prefixes_in_play.add(join(PREFIXES[r], vp))
+                spelled(r, vp=vp)
+                if v in FALSY_VIEWS:
+                    ctx.hit('registered:falsy-view-class')
+                    ctx.hit('falsy-registration:registry.view')
                 if v == 0:
                     ctx.hit('view:static-member')
                     ctx.hit('view:inherited-member')
@@ -295,6 +434,10 @@ def run_history(ctx, ops, is_async):
                 for pfx in list(prefixes_in_play):
                     prefixes_in_play.add(join(PREFIXES[t], pfx))
                 depth[t] = max(depth[t], depth[s] + 1)
+                if carries_sep[s] and model[s]:
+                    ctx.hit('separator-at-edge:carried-through-merge')
+                    carries_sep[t] = True
+                spelled(t)
                 if PREFIXES[t] and PREFIXES[s] and PREFIXES[s].startswith(PREFIXES[t]):
                     ctx.hit('same-prefix-merge')
             elif name == 'attach':
@@ -304,15 +447,30 @@ def run_history(ctx, ops, is_async):
                     put(dmodel, nm, token)
                 if depth[r] >= 2:
                     ctx.hit('three-level-merge')
+                if carries_sep[r] and model[r]:
+                    ctx.hit('separator-at-edge:carried-through-merge')
             elif name == 'dadd':
                 _, f, nm = op
                 disp.add(fns[f], nm)
                 put(dmodel, nm or FN_NAMES[f], f'fn{f}')
+                what(f, 'dispatcher.add')
+                if sep_odd(nm):
+                    ctx.hit('separator-at-edge:explicit-name')
+                    ctx.hit('separator-at-edge:dispatcher.add')
+            elif name == 'dadd_methods':
+                # dispatcher.add_methods with a bare callable (registered under its own name)
+                _, f = op
+                disp.add_methods(fns[f])
+                put(dmodel, FN_NAMES[f], f'fn{f}')
+                what(f, 'dispatcher.add_methods')
             elif name == 'dview':
                 _, v = op
                 disp.view(views[v])
                 for m, token in VIEW_PUBLIC[v].items():
                     put(dmodel, m, token)
+                if v in FALSY_VIEWS:
+                    ctx.hit('registered:falsy-view-class')
+                    ctx.hit('falsy-registration:dispatcher.view')
             else:
                 raise KeyError(name)
         except Exception as e:
@@ -325,17 +483,30 @@ def run_history(ctx, ops, is_async):
         ctx.hit('re-registration')
     for r in range(3):
         prefixes_in_play.add(PREFIXES[r] or '')
+        prefixes_in_play.add((PREFIXES[r] or '').strip('.'))
     # ---- registry key set
+    def klass(names):
+        # which class of the what / how dimensions the names in question belong to (part of the mechanism key)
+        out = ''
+        if any(dmodel.get(n) in FALSY_TOKENS for n in names):
+            out += ':registered-object-or-view-class-with-a-false-truth-value'
+        if any(sep_odd(n) for n in names):
+            out += ':separator-at-an-edge-of-or-doubled-in-the-name'
+        return out
+
     keys = set(disp.registry.keys())
     if keys != set(dmodel):
-        ctx.violation('registry-key-set-differs:' + ('missing' if set(dmodel) - keys else 'unexpected'), 'keys', cls,
+        missing = set(dmodel) - keys
+        ctx.violation('registry-key-set-differs:' + ('missing' + klass(missing) if missing else 'unexpected'), 'keys', cls,
                       expected=sorted(dmodel), got=sorted(keys), **wit)
         return
     # ---- probes
+    falsy_view_in_play = any(o[0] in ('view', 'dview') and o[2 if o[0] == 'view' else 1] in FALSY_VIEWS for o in ops)
     valid = set(dmodel)
     near = set()
     for n in valid:
         near.update({n[:-1], n + 'x', 'x' + n, n[1:], n + '.', '.' + n, n.upper(), n.replace('.', '', 1), n.replace('.', '..', 1)})
+        near.update({n.strip('.'), n.lstrip('.'), n.rstrip('.'), n.replace('..', '.'), '.'.join(x for x in n.split('.') if x)})
         near.update({n + ' ', ' ' + n, n + '\n', '\t' + n, n + '\u00a0', n.replace('.', ' . ', 1), n.replace('.', '. ', 1)})     # white space is part of a name
         segs = n.split('.')
         for i in range(len(segs)):
@@ -346,9 +517,10 @@ def run_history(ctx, ops, is_async):
             near.add(p + '.' + n)
     private = set()
     for pfx in prefixes_in_play:
-        for m in VIEW_PRIVATE:
+        for m in VIEW_PRIVATE + (VIEW_PRIVATE_FALSY if falsy_view_in_play else []):
             private.add(join(pfx, m))
-    for bare in list(FN_NAMES) + ['pm', 'st', 'inherited'] + EXPLICIT:
+    for bare in FN_NAMES[:N_PLAIN] + ['pm', 'st', 'inherited'] + EXPLICIT + (['status', 'toggle'] if falsy_view_in_play else []) + \
+            ([x for x in FN_NAMES[N_PLAIN:] if x] if any(t in FALSY_TOKENS or t == 'fn6' for t in dmodel.values()) else []):
         for pfx in prefixes_in_play:
             near.add(join(pfx, bare))
     near = {n for n in near if n and n not in valid} | {''}      # the empty string is a name like any other that nobody registered
@@ -377,7 +549,7 @@ def run_history(ctx, ops, is_async):
             continue
         if doc.get('result') != dmodel[n]:
             got = doc.get('result', doc.get('error', {}).get('code'))
-            mech = 'registered-name-not-reachable' if 'error' in doc else 'name-reaches-another-target'
+            mech = ('registered-name-not-reachable' if 'error' in doc else 'name-reaches-another-target') + klass([n])
             ctx.violation(mech, 'probe', cls, method=n, expected_target=dmodel[n], got=got, **wit)
             return
     for group, names in (('near-miss', near), ('private-member', private)):
@@ -392,7 +564,7 @@ def run_history(ctx, ops, is_async):
                 ctx.violation(f'unregistered-name-reaches-a-target:{group}', 'probe', cls, method=n, response=doc, **wit)
                 return
     ctx.ok(f'history:{dk}:len{min(len(ops), 6)}', cls, sample={'history': ops, 'dispatcher': dk, 'reachable': dmodel,
-                                                                'probed_unregistered': len(near) + len(private)})
+                                                                'prefixes': PREFIXES, 'probed_unregistered': len(near) + len(private)})
 
 
 def alphabet(reduced):
@@ -433,6 +605,24 @@ def alphabet(reduced):
     return ops
 
 
+def alphabet_wide():
+    """operations of the two added dimensions: WHAT is registered (callable objects / view classes with a false truth value, a
+    truthy callable object as control) and HOW the parts are spelled (separator at the edge of / doubled inside a name part)"""
+    ops = []
+    for r in (0, 1, 2):
+        ops += [['add', r, 4], ['add', r, 5], ['add', r, 6], ['add_named', r, 4, 'emit'], ['add_named', r, 7, 'emit'],
+                ['add_named', r, 5, 'x.y'], ['add_named', r, 6, 'emit'], ['add_methods_fn', r, 4], ['add_methods_fn', r, 5],
+                ['add_deco_multi', r, [4, 0, 5]], ['view', r, 4, 'v'], ['view', r, 4, None], ['view', r, 5, 'v'], ['view', r, 5, None]]
+        for i, nm in enumerate(SEP_NAMES):
+            ops.append(['add_named', r, (0, 1, 2, 7)[(i + r) % 4], nm])
+        for i, vp in enumerate(SEP_VIEW_PREFIXES):
+            ops.append(['view', r, (1, 0, 4, 2)[(i + r) % 4], vp])
+    ops += [['dadd', 4, None], ['dadd', 5, None], ['dadd', 7, 'emit'], ['dadd', 4, 'x.y'], ['dadd', 6, None], ['dadd_methods', 4],
+            ['dadd_methods', 5], ['dadd_methods', 0], ['dview', 4], ['dview', 5], ['dadd', 5, '.hidden']]
+    ops += [['dadd', i % 3, nm] for i, nm in enumerate(SEP_NAMES[:5])]
+    return ops
+
+
 def gen(ctx):
     rng = ctx.rng
     full = ctx.thorough
@@ -440,16 +630,17 @@ def gen(ctx):
     allops = alphabet(False)
     k = 0
 
-    def emit(ops):
+    def emit(ops, prefixes=None):
         nonlocal k
         k += 1
-        if not any(o[0] in ('attach', 'dadd', 'dview') for o in ops):
+        if not any(o[0] in ('attach', 'dadd', 'dview', 'dadd_methods') for o in ops):
             ops = ops + [['attach', 0]]
+        extra = {} if prefixes is None or prefixes == PREFIX_SETS[0] else {'prefixes': prefixes}
         if full:
-            yield 'history', dict(ops=ops, is_async=False)
-            yield 'history', dict(ops=ops, is_async=True)
+            yield 'history', dict(ops=ops, is_async=False, **extra)
+            yield 'history', dict(ops=ops, is_async=True, **extra)
         else:
-            yield 'history', dict(ops=ops, is_async=bool(k % 2))
+            yield 'history', dict(ops=ops, is_async=bool(k % 2), **extra)
 
     for n in (1, 2, 3):
         for seq in itertools.product(range(len(red)), repeat=n):
@@ -472,6 +663,39 @@ def gen(ctx):
         yield from emit([['view', 1, 0, 'v'], ['view', 1, 1, 'v'], ['attach', 1]])
         yield from emit([['add', 1, fa], ['merge', 2, 1], ['merge', 1, 2], ['attach', 1]])
         yield from emit([['add_named', 1, fa, 'a'], ['add_named', 2, fb, 'a'], ['merge', 1, 2], ['merge', 0, 1], ['attach', 0]])
+    yield from gen_wide(ctx, emit)
+
+
+
+def gen_wide(ctx, emit):
+    """the two added dimensions: sampled histories mixing the wide alphabet with the ordinary one under every prefix triple, and
+    crafted ones that take each class through every registration entry point and nesting level"""
+    rng = ctx.rng
+    wide = alphabet_wide()
+    allops = alphabet(False)
+    for _ in range(ctx.pick(1000, 40000)):
+        n = rng.randint(3, 6)
+        ops = [rng.choice(wide) if rng.random() < 0.55 else rng.choice(allops) for _ in range(n)]
+        yield from emit(ops, rng.choice(PREFIX_SETS))
+    crafted = [
+        # false truth value at registration time; the direct forms sit at even steps, the decorator forms at odd ones
+        [['add_named', 1, 7, 'emit'], ['add', 1, 0], ['view', 1, 4, 'v'], ['add', 2, 1], ['add', 1, 5], ['attach', 1]],
+        [['add_methods_fn', 2, 4], ['merge', 1, 2], ['merge', 0, 1], ['attach', 0]],
+        [['dadd', 7, 'emit'], ['dadd', 4, None], ['dview', 4], ['dview', 5], ['dadd_methods', 5]],
+        [['view', 2, 5, None], ['add', 2, 0], ['add_named', 2, 5, 'x.y'], ['merge', 0, 2], ['attach', 0]],
+        [['add', 0, 0], ['add_named', 1, 4, 'emit'], ['add', 0, 2], ['view', 1, 5, 'v'], ['attach', 0], ['attach', 1]],
+        [['add', 0, 1], ['attach', 0], ['add', 1, 5], ['attach', 1], ['dadd', 5, None]],
+        # separator at the edge of a name part
+        [['dadd', 0, '.hidden'], ['dadd', 1, 'trailing.'], ['dadd', 2, 'a..b'], ['dadd', 3, None]],
+        [['add_named', 2, 0, '.hidden'], ['add', 2, 1], ['view', 2, 1, 'v.'], ['merge', 1, 2], ['add_named', 1, 2, 'trailing.'], ['attach', 1]],
+        [['add_named', 2, 1, 'a..b'], ['merge', 1, 2], ['merge', 0, 1], ['attach', 0]],
+        [['view', 0, 0, '.v'], ['add_named', 0, 0, '..z'], ['attach', 0]],
+        [['add', 1, 0], ['add', 2, 1], ['merge', 0, 1], ['merge', 0, 2], ['attach', 0]],
+        [['add', 0, 0], ['add_named', 0, 1, 'trailing.'], ['add', 0, 3], ['view', 0, 4, 'v..w'], ['attach', 0]],
+    ]
+    for pf in PREFIX_SETS:
+        for ops in crafted:
+            yield from emit(ops, pf)
 
 
 KINDS = {'history': run_history}
